@@ -23,6 +23,7 @@ CONSTANTS
   BugZeroCostHeld = FALSE
   SplitOnlyAtEnqueue = FALSE
   DropOnClose = FALSE
+  WriteErrorEndsReader = FALSE
   ForwardInitWin = FALSE
   WithSettings = TRUE
 INVARIANTS WithinGrant WithinMaxFrame CreditReturned NoEligibleQueued LedgerAgrees PrefixFidelity Conserved HpackInOrder
